@@ -1236,6 +1236,7 @@ class Interp(object):
         self._site += 1
         ref = ("ref", self._site, self.site(node))
         path.heap[ref] = content
+        self.emit(path, "newlist", node, {"ref": ref, "content": content})
         return ref
 
     def deref(self, v, path):
